@@ -41,6 +41,10 @@ type SSOCase struct {
 	PersistFault bool            `json:"persist_fault,omitempty"`
 	Headers      [][2]string     `json:"headers,omitempty"`
 	Note         string          `json:"note,omitempty"`
+	// Prelude lists request hosts that are served by the same provider instance before the case's own
+	// request (metadata, a valid SSO request and an attribute query each): state kept across requests
+	// must not leak into the request under test.
+	Prelude []string `json:"prelude_hosts,omitempty"`
 }
 
 func (c SSOCase) hasDefect(name string) bool {
@@ -669,7 +673,8 @@ func genValidAuthn(t *rapid.T, spec world.Spec, sp int, host string) spsim.Authn
 	if rapid.Bool().Draw(t, "conds") {
 		c := &spsim.Conditions{NotBefore: A, NotOnOrAfter: A}
 		if rapid.Bool().Draw(t, "nb") {
-			c.NotBefore = spsim.Rel(-rapid.SampledFrom([]int{5, 60, 3600, 86400 * 30}).Draw(t, "nbage"), rapid.IntRange(0, 9).Draw(t, "nbfrac"), "")
+			// NotBefore = the moment of stamping is what SP libraries emit; the IdP handles the request later
+			c.NotBefore = spsim.Rel(-rapid.SampledFrom([]int{0, 0, 5, 60, 3600, 86400 * 30}).Draw(t, "nbage"), rapid.IntRange(0, 9).Draw(t, "nbfrac"), "")
 		}
 		if rapid.Bool().Draw(t, "noa") {
 			c.NotOnOrAfter = spsim.Rel(rapid.SampledFrom([]int{10, 60, 3600, 86400 * 365}).Draw(t, "noaage"), rapid.IntRange(0, 9).Draw(t, "noafrac"), "")
@@ -781,4 +786,40 @@ func effHost(c SSOCase) string {
 		}
 	}
 	return host
+}
+
+// runPrelude serves other tenants' requests on the same provider first.
+func runPrelude(w *world.World, spec world.Spec, hosts []string) {
+	for i, h := range hosts {
+		obs.Do(w.Handler, obs.HTTPReq{Method: "GET", Path: spec.IdP.Route("metadata"), Host: h})
+		a := spsim.NewAuthnReq(fmt.Sprintf("_prelude-%d", i), spec.SPs[0].EntityID)
+		a.Destination = spec.IdP.Advertised("sso", h)
+		hr, _, _ := spsim.Encode(spec.IdP.Route("sso"), xt.Write(a.Tree(plainStyle), plainStyle.W), spsim.Transport{Binding: "post", Plus: true, Encoding: A, RelayState: "prelude"}, nil)
+		hr.Host = h
+		obs.Do(w.Handler, hr)
+		q := spsim.NewAttrQuery(fmt.Sprintf("_preludeq-%d", i), spec.SPs[0].EntityID, "login0@users.example")
+		q.Destination = spec.IdP.Advertised("attribute", h)
+		hq, _, _ := spsim.Encode(spec.IdP.Route("attribute"), xt.Write(spsim.Envelope(q.QueryTree(plainStyle), "soap"), plainStyle.W), spsim.Transport{Binding: "soap"}, nil)
+		hq.Host = h
+		obs.Do(w.Handler, hq)
+	}
+	w.Store.ResetLog()
+}
+
+var preludeHosts = []string{"other-tenant.idp.example", "tenant-b.idp.example:8443", "third.example"}
+
+// genPrelude draws prelude hosts for host-derived issuer configurations.
+func genPrelude(t *rapid.T, spec world.Spec, own string) []string {
+	if spec.IdP.IssuerMode == "static" || rapid.Bool().Draw(t, "noprelude") {
+		return nil
+	}
+	var out []string
+	n := rapid.IntRange(1, 2).Draw(t, "nprelude")
+	for i := 0; i < n; i++ {
+		h := rapid.SampledFrom(preludeHosts).Draw(t, "preludehost")
+		if h != own {
+			out = append(out, h)
+		}
+	}
+	return out
 }
